@@ -43,7 +43,9 @@ EXPLANATION = (
     "init -> update(whole message) -> final on one state object in dominance order, the same inner update "
     "function as the incremental wrapper. HMAC: final = finalize(inner) -> update(outer, inner digest) once "
     "-> finalize(outer); the pads are absorbed in init, once each, before init returns. Consequence: for "
-    "SHA-512, HMAC-SHA-512-256 and pre-hashed signing the chunking property reduces to sha2::Sha512.")
+    "SHA-512, HMAC-SHA-512-256 and pre-hashed signing the chunking property reduces to sha2::Sha512. FINAL: the "
+    "output of every public finalisation entry point (returned value, or the &mut output parameter) depends on the "
+    "contents of the accumulated state.")
 NOT_DECIDED = ("the crate-local buffering arithmetic inside blake2b::State::update/finalize and Poly1305::update/"
                "finalize (generic hash, one-time auth): equality under every partition is value-level and is NOT decided.")
 
@@ -194,6 +196,7 @@ def check(ctx, rep, cfg):
         rep.ob("ONE-SHOT", name + tag, ok, why, loc=ofs[0].loc())
     rep.floor("one-shot functions" + tag, m, 9)
     hmac(rep, prog, tag)
+    finals(rep, prog, tag)
     init_lengths(rep, prog, tag)
     buffer_invariants(rep, prog, tag)
 
@@ -543,3 +546,37 @@ def buffer_invariants(rep, prog, tag):
                        "%d abstract state(s) reach the block routine, each with a %d-byte block" % (len(it2.probes), B) if okp else
                        "the padded final block may have length %s" % detail[:3], loc=g.loc())
     rep.floor("crate-local inner update functions with a pending buffer" + tag, n, 2)
+
+
+FINAL_MODULES = ("classic::crypto_auth::", "classic::crypto_onetimeauth::", "classic::crypto_generichash::", "classic::crypto_hash::",
+                 "classic::crypto_sign::", "auth::Auth::", "onetimeauth::OnetimeAuth::", "generichash::GenericHash::", "sha512::Sha512::",
+                 "sign::IncrementalSigner::")
+
+
+def finals(rep, prog, tag):
+    """FINAL: the result of an incremental computation is what the accumulated state says.  For every public
+    finalisation entry point (`*_final*`, `finalize*` of the incremental interfaces, classic and object API) the
+    output - the returned value, or the `&mut` output parameter when nothing is returned - depends on the
+    *contents* of the state parameter.  (A `finalize` that allocates the output and forgets to call the
+    finaliser returns zeros for every chunking, and the one-shot function does not.)"""
+    import re
+    from ..inline import inline
+    n = 0
+    for f0 in sorted(prog.fns, key=lambda f: f.path):
+        if f0.vis != "pub" or f0.kind == "closure" or not f0.blocks or not f0.path.startswith(FINAL_MODULES):
+            continue
+        if not re.search(r"(^|::)(finalize\w*|\w+_final\w*)$", f0.path) or f0.argc < 1:
+            continue
+        f = inline(prog, f0)
+        rt = f.locals[0]["t"]
+        muts = [p for p in cm.params_of(f) if p != 1 and f.locals[p]["t"].startswith("&mut ")]
+        outs = [0] if rt not in ("()", "std::result::Result<(), error::Error>") else muts
+        if rt == "std::result::Result<(), error::Error>" and not muts:
+            continue            # a verdict (final_verify): control-dependent on the state; C06's business
+        if not outs:
+            rep.violation("ANCHOR", f0.path + tag, "cannot tell the output of the finalisation entry point (fail closed)", loc=f0.loc())
+            continue
+        n += 1
+        sl = cm.content_slice(f, outs)
+        rep.ob("FINAL", f0.path + tag, 1 in sl, "the output %s the contents of the accumulated state" % ("depends on" if 1 in sl else "does NOT depend on"), loc=f0.loc())
+    rep.floor("finalisation entry points" + tag, n, 15)
